@@ -36,9 +36,11 @@ type c20Phase struct {
 	Debug []bool `json:"debug"`
 	// LStrip: value of the set's LStripBlocks option during this phase (the caller changes
 	// it between phases, like Debug; it has no effect on what the cached files render)
-	LStrip []bool    `json:"lstrip_blocks"`
-	Tasks  [][]c20Op `json:"tasks"`
-	Env    []c20Env  `json:"env,omitempty"`
+	LStrip []bool `json:"lstrip_blocks"`
+	// AddLoader: before this phase the caller adds one more loader to the set (it serves nothing)
+	AddLoader []bool    `json:"add_loader,omitempty"`
+	Tasks     [][]c20Op `json:"tasks"`
+	Env       []c20Env  `json:"env,omitempty"`
 }
 
 type c20Spec struct {
@@ -132,7 +134,8 @@ func c20TopContent(name string, ver, disk int, hasInc bool, inc string, corrupt 
 	// the part after the marker renders differently under the set's TrimBlocks option
 	// (g0 / g1: a global that only set 0 / only set 1 defines; cm: an exported macro, so that a
 	// context carrying the key "cm" is rejected before anything is rendered)
-	s := fmt.Sprintf("[%sv%d@%d:{{ setname }}{{ g0 }}{{ g1 }}{{ gdef }}]{%% if true %%}\nT{%% endif %%}", name, ver, disk)
+	// (ln: when the caller's context names another file, it is included at run time)
+	s := fmt.Sprintf("[%sv%d@%d:{{ setname }}{{ g0 }}{{ g1 }}{{ gdef }}]{%% if true %%}\nT{%% endif %%}{%% if ln %%}{%% include ln with ln=\"\" %%}{%% endif %%}", name, ver, disk)
 	const cm = "{% macro cm() export %}{% endmacro %}"
 	if hasInc && inc == "base.tpl" {
 		s = `{% extends "base.tpl" %}` + cm + `{% block b %}` + s + "{% endblock %}"
@@ -252,6 +255,7 @@ func c20Gen(tp *Tapes) *c20Spec {
 			}
 			ph.Debug = append(ph.Debug, d)
 			ph.LStrip = append(ph.LStrip, p > 0 && g.Draw(3) == 1)
+			ph.AddLoader = append(ph.AddLoader, p > 0 && g.Draw(4) == 0)
 		}
 		k := 1 + g.DrawD(4, 6)
 		for t := 0; t < k; t++ {
@@ -259,7 +263,12 @@ func c20Gen(tp *Tapes) *c20Spec {
 			var ops []c20Op
 			for o := 0; o < nops; o++ {
 				op := c20Op{Set: g.Draw(nSets), Sp: g.Draw(4)}
-				switch g.Draw(8) {
+				switch g.Draw(9) {
+				case 8:
+					// the caller executes the template its last FromCache of this phase returned,
+					// with a context that names another cached file to be included at run time
+					op.Kind = "exec"
+					op.Name = g.Draw(nNames)
 				case 6:
 					op.Kind = "clean"
 					op.Names = []int{g.Draw(nNames)}
@@ -544,7 +553,7 @@ func (c20Checker) Run(tp *Tapes, opt RunOpt) *Outcome {
 	out := &Outcome{}
 	sp := c20Gen(tp)
 	nSets := len(sp.Loaders)
-	w := NewWorld([]*DiskSpec{sp.Disk, sp.Disk1})
+	w := NewWorld([]*DiskSpec{sp.Disk, sp.Disk1, {Files: map[string][]FileVer{}}}) // (disk 2: nothing on it)
 	w.Plan = sp.Plan
 	s := NewSched(tp.Sched, w)
 	s.Strat = sp.strat
@@ -608,10 +617,15 @@ func (c20Checker) Run(tp *Tapes, opt RunOpt) *Outcome {
 	results := map[opKey]*c20Res{}
 	opSpec := map[opKey]c20Op{}
 	debugNow := make([]bool, nSets)
+	crossBlock := ""
 
 	for pi, ph := range sp.Phases {
 		for si := range sets {
 			sets[si].Options.LStripBlocks = ph.LStrip[si]
+			if ph.AddLoader[si] {
+				sets[si].AddLoader(w.MakeLoader(64+si*8+pi, LoaderSpec{Kind: "virt", Disk: 2}))
+				out.probe("loader_added_between_phases")
+			}
 			if ph.Debug[si] != debugNow[si] {
 				c := s.NextSeq()
 				sets[si].Debug = ph.Debug[si]
@@ -643,6 +657,23 @@ func (c20Checker) Run(tp *Tapes, opt RunOpt) *Outcome {
 				}
 			}
 		}
+		// a cache lock that is found taken must be held by an operation on the very same set:
+		// the sets' caches have nothing to do with one another (scheduler goroutine)
+		w.LockWaitFn = func(t, opi int) {
+			mine, ok := opSpec[opKey{t, opi}]
+			if !ok || crossBlock != "" {
+				return
+			}
+			for ot := range ph.Tasks {
+				if ot == t || w.inOp[ot] < 0 {
+					continue
+				}
+				if other, ok := opSpec[opKey{ot, w.inOp[ot]}]; ok && other.Set == mine.Set && other.Kind != "exec" {
+					return // somebody is inside a cache operation of this set: fair enough
+				}
+			}
+			crossBlock = fmt.Sprintf("task %d found the cache lock of set S%d taken although no other task is inside a cache operation of that set", t, mine.Set)
+		}
 		bodies := make([]func(*TaskCtx), len(ph.Tasks))
 		locals := make([]any, len(ph.Tasks))
 		for ti, ops := range ph.Tasks {
@@ -654,6 +685,7 @@ func (c20Checker) Run(tp *Tapes, opt RunOpt) *Outcome {
 				opSpec[opKey{ti, base + oi}] = op
 			}
 			bodies[ti] = func(tc *TaskCtx) {
+				var lastTpl *pongo2.Template
 				for oi, op := range ops {
 					r := &c20Res{}
 					res[oi] = r
@@ -689,6 +721,13 @@ func (c20Checker) Run(tp *Tapes, opt RunOpt) *Outcome {
 							set.CleanCache(ns...)
 						case "cleanall":
 							set.CleanCache()
+						case "exec":
+							if lastTpl != nil {
+								lastTpl.Execute(pongo2.Context{"ln": sp.spelling(op.Set, op.Name, op.Sp)})
+							}
+						}
+						if op.Kind == "from" && r.tpl != nil {
+							lastTpl = r.tpl
 						}
 					}()
 					w.OpEnd(base + oi)
@@ -718,6 +757,9 @@ func (c20Checker) Run(tp *Tapes, opt RunOpt) *Outcome {
 	out.Steps = s.Steps
 	out.TraceHash = uint64(s.Trace)
 	out.Log = s.Log
+	if crossBlock != "" && !sp.Shared {
+		out.addViolation("cross_set_blocking", "cache-lock", crossBlock, nil, nil)
+	}
 
 	// ---- assemble the history ---------------------------------------------------
 	if !s.Deadlock && out.HarnessErr == "" {
@@ -744,6 +786,10 @@ func (c20Checker) Run(tp *Tapes, opt RunOpt) *Outcome {
 			op := opSpec[k]
 			r := results[k]
 			out.Execs++
+			if op.Kind == "exec" {
+				out.probe("execute_with_runtime_include")
+				continue // executing a template is not a cache operation: nothing for the model
+			}
 			h := c20HistOp{Client: st.Task, Call: st.Call, Ret: st.Ret, set: op.Set}
 			switch op.Kind {
 			case "clean":
